@@ -145,6 +145,7 @@ type seqStats struct {
 	gapsChecked, waitsChecked                                       int
 	ammoChecked, ammoPauseDiffers, ammoArgDiffers                   bool
 	size                                                            map[string]bool // classes of judged size assertions
+	rendered                                                        map[string]bool // "scenario/request" uses that were rendered and sent
 }
 
 // checkAmmo compares the scenario the provider handed to the gun for one invocation
@@ -241,7 +242,7 @@ func checkSeq(c Case, o *vf.Obs) error {
 	for _, sc := range prog.Scenarios {
 		entryOf[sc.Expand()[0].Name] = sc.Name
 	}
-	st := seqStats{fails: map[string]bool{}, failPos: map[string]bool{}, size: map[string]bool{}}
+	st := seqStats{fails: map[string]bool{}, failPos: map[string]bool{}, size: map[string]bool{}, rendered: map[string]bool{}}
 	it := si.New(prog)
 	ri, sx := 0, 0
 	counts := map[string]int{}
@@ -316,6 +317,7 @@ func checkSeq(c Case, o *vf.Obs) error {
 			if d := diffReq(rec, s.Req); d != "" {
 				return fail("%s: request #%d at the target differs from the reference rendering: %s", where, ri, d)
 			}
+			st.rendered[scn+"/"+s.Def.Name] = true
 			for _, b := range pending {
 				if got := rec.At.Sub(b.from); got < time.Duration(b.ms)*time.Millisecond {
 					return fail("%s: request #%d arrived %v after %s, but a pause of %d ms is due between them", where, ri, got, b.what, b.ms)
@@ -490,6 +492,7 @@ func checkSeq(c Case, o *vf.Obs) error {
 	for _, s := range prog.Sources {
 		o.Class("source_" + s.Kind)
 	}
+	classNames(prog, st.rendered, o)
 	o.ClassIf(st.flowPost, "flow_captured_value")
 	o.ClassIf(st.flowPre, "flow_preprocessor_value")
 	o.ClassIf(st.noValue, "missing_var_no_value")
@@ -524,6 +527,42 @@ func checkSeq(c Case, o *vf.Obs) error {
 		o.NonTrivial()
 	}
 	return nil
+}
+
+// classNames labels the naming of the program: snake_case names, and (scenario, request) uses that read the same when
+// joined by an underscore. rendered (nil = not tracked: every use counts) holds the uses that were rendered and sent.
+func classNames(prog *si.Program, rendered map[string]bool, o *vf.Obs) {
+	snake := false
+	for _, r := range prog.Requests {
+		snake = snake || strings.Contains(r.Name, "_")
+	}
+	o.ClassIf(snake, "request_names_with_underscore")
+	cl := map[string]bool{}
+	for _, pr := range equalJoins(prog) {
+		cl["names_join_equally"] = true
+		a, b := prog.Request(pr[0][1]), prog.Request(pr[1][1])
+		if rendered != nil && !(rendered[pr[0][0]+"/"+a.Name] && rendered[pr[1][0]+"/"+b.Name]) {
+			continue
+		}
+		cl["names_join_equally_both_rendered"] = true
+		if a.Templater != "" || b.Templater != "" {
+			continue
+		}
+		cl["names_join_equally_both_rendered_default_templater"] = true
+		for _, h := range a.Headers {
+			for _, g := range b.Headers {
+				if si.CanonHeader(h.Name) == si.CanonHeader(g.Name) && h.Value.Text() != g.Value.Text() {
+					cl["names_join_equally_default_templater_same_header_name"] = true
+				}
+			}
+		}
+		if a.Body != nil && b.Body != nil && a.Body.Text() != b.Body.Text() {
+			cl["names_join_equally_default_templater_both_body"] = true
+		}
+	}
+	for _, k := range sortedKeys(cl) {
+		o.Class(k)
+	}
 }
 
 func entryScenario(p *si.Program) map[string]string {
@@ -656,6 +695,7 @@ func checkConcurrent(c Case, o *vf.Obs) error {
 			open--
 		}
 	}
+	classNames(prog, nil, o)
 	o.ClassIf(interleaved, "invocations_interleaved_at_target")
 	o.Class(fmt.Sprintf("instances_%d", c.Instances))
 	o.ClassIf(nextUsed, "next_used")
